@@ -518,6 +518,25 @@ def ownReq (st : St) (args : List String) : St × String :=
         | none => (st, "refused")
         | some o2 => ({ st with own := o2 }, s!"rel={showKeys (sortNat o2.released)}")
     | _, _, _, _ => (st, "bad-op")
+  | ["own.take", g, k, d], _ => match n g, n k, n d with
+    -- `Graph::remove` hands back the node: the handle moves from the container to slot `d` (get, then remove)
+    | some g, some k, some d =>
+      let sel : S → Nat → List (Nat × Nat) := if st.directed then outAdj else unAdj
+      match st.own.step sel (ownMut st.directed) (.get g k d) with
+      | none => (st, "refused")
+      | some o1 =>
+        match o1.step sel (ownMut st.directed) (.remove g k) with
+        | none => (st, "refused")
+        | some o2 => ({ st with own := o2 }, s!"rel={showKeys (sortNat o2.released)}")
+    | _, _, _ => (st, "bad-op")
+  | ["own.deg", i], _ => match n i with
+    | some i =>
+      match st.own.slot i with
+      | [k] =>
+        let a := st.own.s.get k
+        (st, if st.directed then s!"deg={a.out.length}/{a.inn.length}" else s!"deg={a.out.length + a.inn.length}")
+      | _ => (st, "deg=-")
+    | none => (st, "bad-op")
   | ["own.held", i], _ => match n i with
     | some i => (st, s!"held={showKeys (sortNat (st.own.slot i).eraseDups)}")
     | none => (st, "bad-op")
